@@ -4,7 +4,7 @@
 (* ret = [r : O24 index or -1, t : <<x,y,z>> in 1/64 lattice units, s : <<num, den>>]. *)
 (* The returned translation is compared in 1/64 units so that scale 1/2 and   *)
 (* 1/4 keep it integral.                                                       *)
-EXTENDS ExactGeom
+EXTENDS LeastSquares
 TU == 64       \* sub-units of the returned translation
 
 \* position p moved by the returned similarity, in 1/64 units:  s R p + t
@@ -58,24 +58,4 @@ ResultVerdict(c, o) ==
        THEN "RecordedMatrixDoesNotMapEstimate"
   ELSE "ok"
 
-\* ---- noisy integer data: optimality against the lattice candidate family (necessary condition)
-\* x, y : sequences of integer points; residuals scaled: sseAfter64 = floor(64 n^2 SSE_after)
-Centered(x) == LET n == Len(x)
-                   sx == <<SumSeq([k \in 1..n |-> x[k][1]]), SumSeq([k \in 1..n |-> x[k][2]]), SumSeq([k \in 1..n |-> x[k][3]])>>
-               IN [k \in 1..n |-> VSub(VScale(n, x[k]), sx)]
-RigidCand(X, Y, g) == SumSeq([k \in DOMAIN X |-> Norm2(VSub(Y[k], Act(g, X[k])))])         \* n^2 SSE*(g), optimal t
-Dot(u, v) == u[1] * v[1] + u[2] * v[2] + u[3] * v[3]
-OptVerdict(c, o) ==
-  LET X == Centered(c.x)  Y == Centered(c.y)
-      sxx == SumSeq([k \in DOMAIN X |-> Norm2(X[k])])
-      syy == SumSeq([k \in DOMAIN Y |-> Norm2(Y[k])])
-  IN IF o.out = "GeometryException" THEN "ok"           \* refusing degenerate data is not judged here
-     ELSE IF o.out # "ok" THEN "AlignmentFailedWithUnexpectedError"
-     ELSE IF ~o.proper THEN "ImproperRotation"
-     ELSE IF o.sseAfter64 > o.sseBefore64 + 1 THEN "FitWorseThanBefore"
-     ELSE IF ~c.scale /\ \E g \in O24 : o.sseAfter64 > 64 * RigidCand(X, Y, g) + 1 THEN "WorseThanAnotherRigidTransform"
-     ELSE IF c.scale /\ \E g \in O24 :
-               LET d == SumSeq([k \in DOMAIN X |-> Dot(Y[k], Act(g, X[k]))]) IN
-               d > 0 /\ o.sseAfter64 * sxx > 64 * (syy * sxx - d * d) + sxx THEN "WorseThanAnotherSimilarity"
-     ELSE "ok"
 ==============================================================================
